@@ -151,6 +151,16 @@ def c08(res, tier, seed, replay):
             runs.append({"name": f"cache-{cfgname}-mem-{s}",
                          "args": ["-mode", "rank", "-config", cfgname, "-mem", "-seed", seed * 100 + 30 + s, "-hist", hist,
                                   "-batches", batches, "-rank", 3]})
+    # trained quantisers: warm / cold pair comparison (the model does not recompute quantised distances)
+    for s in range(nseeds):
+        runs.append({"name": f"cache-flat-pq-{s}", "timeout": 900,
+                     "args": ["-mode", "cache", "-insert-only", "-config", "flat-pq", "-maxbatch", 400, "-seed", seed * 100 + 80 + s, "-hist", 1,
+                              "-batches", 8, "-rank", 3, "-panel-every", 0]})
+        for cfgname in ("flat-binlearn", "vamana-binlearn"):
+            for cache, ctag in CACHES:
+                runs.append({"name": f"cache-{cfgname}-{ctag}-{s}",
+                             "args": ["-mode", "cache", "-config", cfgname, "-cache", cache, "-seed", seed * 100 + 90 + s, "-hist", 2,
+                                      "-batches", 14, "-rank", 3, "-panel-every", 0]})
     results = drive_and_validate(res, runs)
     for r in results[:1]:
         sample_from_trace_nonempty(res, r["trace"], "VamanaPair", cap=1)
@@ -173,4 +183,4 @@ def c08(res, tier, seed, replay):
                             "the point reads, filter sample, ranking queries are answered warm, after eviction, and by a fresh instance on a "
                             "copy of the file, after random reopen points, and on the in-memory backend; all are validated by TLC against one "
                             "model state; graph searches are also compared warm vs cold pairwise")
-    res.assumptions += ["product quantiser not exercised (needs >= 1000 points to train)"]
+    res.assumptions += ["with trained quantisers (product, learned binary) warm and cold answers are compared pairwise; the quantised distance itself is not recomputed by the model"]
